@@ -154,6 +154,16 @@ func (c *compiler) write(bb *strings.Builder, i interface{}) {
 		for _, ii := range t.Value {
 			c.write(bb, ii)
 		}
+	case breakObject:
+		// (a block a helper evaluates was left with break / continue: what it had
+		// produced until then is its text)
+		for _, ii := range t.Value {
+			c.write(bb, ii)
+		}
+	case continueObject:
+		for _, ii := range t.Value {
+			c.write(bb, ii)
+		}
 	}
 }
 
@@ -1320,6 +1330,17 @@ func (c *compiler) evalReturnStatement(node *ast.ReturnStatement) (interface{}, 
 		v := returnObject{}
 		v.Value = append(v.Value, res)
 		res = v
+	} else {
+		// an output tag: an array is written as it is NOW. The values a block
+		// produces are collected and written when the enclosing statement is
+		// complete; an array assigned to later in the block would otherwise be
+		// printed in its final state by every earlier tag
+		switch res.(type) {
+		case []interface{}, []string:
+			bb := &strings.Builder{}
+			c.write(bb, res)
+			res = template.HTML(bb.String())
+		}
 	}
 
 	return res, nil
